@@ -191,4 +191,18 @@ CHECKS = {
         quick=[R("^TestFixed$", 1, 1, 600), R("^TestTeardown$", 10, 10, 800, shrinktime="90s")],
         thorough=[R("^TestFixed$", 1, 1, 600), R("^TestTeardown$", 200, 15, 3400, shrinktime="180s")],
     ),
+    "C18": dict(
+        pkg="./props/c18", bins=["./cmd/simcore"], level="fault_enumeration",
+        rule=("whole core against the simulated world, one fresh world per case; rapid-generated crash/reconnect points: 1-3 tasks, 1-2 environments; "
+              "either SIGKILL the core at a drawn point of an environment's life (after ACCEPT before RUNNING, deployed, while a START is parked on "
+              "gated replies, RUNNING, while a teardown waits for kill acknowledgements) and start a new core against the same Consul and master "
+              "state, or drop the master's subscription stream 1-3 times while environments are CONFIGURED / RUNNING / mid-transition. Oracle: the new "
+              "SUBSCRIBE carries the framework id stored by the previous life; within 20 s every task the master still has non-terminal received "
+              "a KILL; the new instance lists no environments and no tasks; after a mere reconnection no KILL reaches a task of a live "
+              "environment and states/tasks are unchanged. Every case is non-trivial; every crash and reconnect point is also run as a fixed case."),
+        assumptions=["the simulated master answers RECONCILE implicitly with one REASON_RECONCILIATION update per non-terminal task, as Mesos does",
+                     "a crash is SIGKILL of the core process; the simulated master and Consul keep their state"],
+        quick=[R("^(TestFixed|TestCanary.*)$", 1, 1, 900), R("^TestCrashPoints$", 4, 8, 900, shrinktime="60s")],
+        thorough=[R("^(TestFixed|TestCanary.*)$", 1, 1, 900), R("^TestCrashPoints$", 40, 15, 3400, shrinktime="120s")],
+    ),
 }
